@@ -436,13 +436,25 @@ def err_exclude_expression(spec, ospecs, res):
 
 
 def err_column_flag_sqlite(spec, ospecs, res):
-    return (res["kind"] == "exec-differs-from-invoke-error" and res["dialect"] == "sqlite"
-            and ("No support for ALTER of constraints in SQLite" in (res.get("error") or "")
-                 or ("batch mode with dialect sqlite requires a live database connection" in (res.get("error") or "") and spec["opts"].get("render_as_batch")))
-            and "exec: None" in (res.get("error") or "")
-            and any(o["kind"] == "add_column" and (spec["tables"][o["table"]]["columns"][o["column"]].get("unique")
-                                                   or spec["tables"][o["table"]]["columns"][o["column"]].get("index")) for o in ospecs))
-
+    # N12 on SQLite: invoke raises for the index / unique constraint of a flagged column that the rendered add_column does not carry
+    err = res.get("error") or ""
+    if not (res["kind"] == "exec-differs-from-invoke-error" and res["dialect"] == "sqlite"):
+        return False
+    flagged = [spec["tables"][o["table"]]["columns"][o["column"]] for o in ospecs if o["kind"] == "add_column"
+               and (spec["tables"][o["table"]]["columns"][o["column"]].get("unique") or spec["tables"][o["table"]]["columns"][o["column"]].get("index"))]
+    if not flagged:
+        return False
+    inv_constraint = "invoke: NotImplementedError('No support for ALTER of constraints in SQLite" in err or \
+        "invoke: NotImplementedError(\"No support for ALTER of constraints in SQLite" in err
+    inv_batch = "batch mode with dialect sqlite requires a live database connection" in err and spec["opts"].get("render_as_batch")
+    if "exec: None" in err:
+        return bool(inv_constraint or inv_batch)
+    # both raise, at different members of the group: invoke at the constraint of the flagged column, the executed code
+    # got past that add_column (its ADD COLUMN is in the exec output) and stopped at a later member
+    bare = lambda x: re.sub(r"[\"`\[\]]", "", x)
+    out = bare(res.get("sql_exec") or "")
+    return bool(inv_constraint and any(("ADD COLUMN " + bare(v)) in out for c in flagged
+                                       for v in (c["name"], c["name"].replace("\t", "    "), c["name"].replace("\r", "").replace("\n", "\n"))))
 
 def err_keyed_column_copy(spec, ospecs, res):
     # invoke side: alembic's schemaobj rebuilds a Table for the op (DropTableOp.to_table with a self-referential string
